@@ -363,28 +363,35 @@ static inline int is_chunked_ctl_char(const unsigned char c) {
  * @returns 1 if it looks valid, 0 if it looks invalid
  */
 static inline int data_probe_chunk_length(htp_connp_t *connp) {
-    if (connp->out_current_read_offset - connp->out_current_consume_offset < 8) {
+    // The probe is about the chunk length line, not about the current chunk:
+    // the beginning of the line may have arrived earlier and wait in out_buf.
+    const unsigned char *parts[2];
+    size_t lens[2];
+
+    parts[0] = connp->out_buf;
+    lens[0] = (connp->out_buf != NULL) ? connp->out_buf_size : 0;
+    parts[1] = connp->out_current_data + connp->out_current_consume_offset;
+    lens[1] = connp->out_current_read_offset - connp->out_current_consume_offset;
+
+    if (lens[0] + lens[1] < 8) {
         // not enough data so far, consider valid still
         return 1;
     }
 
-    unsigned char *data = connp->out_current_data + connp->out_current_consume_offset;
-    size_t len = connp->out_current_read_offset - connp->out_current_consume_offset;
+    for (int p = 0; p < 2; p++) {
+        for (size_t i = 0; i < lens[p]; i++) {
+            unsigned char c = parts[p][i];
 
-    size_t i = 0;
-    while (i < len) {
-        unsigned char c = data[i];
-
-        if (is_chunked_ctl_char(c)) {
-            // ctl char, still good.
-        } else if (isdigit(c) || (c >= 'a' && c <= 'f') || (c >= 'A' && c <= 'F')) {
-            // real chunklen char
-            return 1;
-        } else {
-            // leading junk, bad
-            return 0;
+            if (is_chunked_ctl_char(c)) {
+                // ctl char, still good.
+            } else if (isdigit(c) || (c >= 'a' && c <= 'f') || (c >= 'A' && c <= 'F')) {
+                // real chunklen char
+                return 1;
+            } else {
+                // leading junk, bad
+                return 0;
+            }
         }
-        i++;
     }
     return 1;
 }
@@ -396,28 +403,31 @@ static inline int data_probe_chunk_length(htp_connp_t *connp) {
  * @returns HTP_OK on state change, HTP_ERROR on error, or HTP_DATA when more data is needed.
  */
 htp_status_t htp_connp_RES_BODY_CHUNKED_LENGTH(htp_connp_t *connp) {
-    // Set once the probe has found the first chunk length character of the
-    // current line; the answer cannot change for the rest of that line, and
-    // probing again for every byte would rescan the line each time.
-    int chunklen_seen = 0;
+    // out_chunklen_seen is set once the probe has found the first chunk length
+    // character of the current line; the answer cannot change for the rest of
+    // that line, and probing again for every byte (or, when the line arrives
+    // in small pieces, for every call) would rescan the line each time.
 
     for (;;) {
         OUT_COPY_BYTE_OR_RETURN(connp);
 
         // Have we reached the end of the line? Or is this not chunked after all?
         int line_ends = (connp->out_next_byte == LF);
-        if (!line_ends && !chunklen_seen && !is_chunked_ctl_char((unsigned char) connp->out_next_byte)) {
+        if (!line_ends && !connp->out_chunklen_seen && !is_chunked_ctl_char((unsigned char) connp->out_next_byte)) {
             if (!data_probe_chunk_length(connp)) {
                 line_ends = 1;
-            } else if (connp->out_current_read_offset - connp->out_current_consume_offset >= 8) {
+            } else if (((connp->out_buf != NULL) ? connp->out_buf_size : 0) +
+                       (size_t) (connp->out_current_read_offset - connp->out_current_consume_offset) >= 8) {
                 // With fewer bytes the probe only gives the benefit of the doubt.
-                chunklen_seen = 1;
+                connp->out_chunklen_seen = 1;
             }
         }
 
         if (line_ends) {
             unsigned char *data;
             size_t len;
+
+            connp->out_chunklen_seen = 0;
 
             if (htp_connp_res_consolidate_data(connp, &data, &len) != HTP_OK) {
                 return HTP_ERROR;
@@ -437,7 +447,6 @@ htp_status_t htp_connp_RES_BODY_CHUNKED_LENGTH(htp_connp_t *connp) {
             // empty chunk length line, lets try to continue
             if (connp->out_chunked_length == -1004) {
                 connp->out_current_consume_offset = connp->out_current_read_offset;
-                chunklen_seen = 0;
                 continue;
             }
             if (connp->out_chunked_length < 0) {
